@@ -59,12 +59,16 @@ void verif_in_arr(const char *name, void *p, size_t elsz, size_t n);
 	type nondet_in_##name(void);                                                                                   \
 	type name = nondet_in_##name()
 /* a whole array as ONE nondeterministic struct value, so that the counterexample trace lists every element */
-#define VIN_ARR(type, name, n)                                                                                         \
-	struct name##_vin_s {                                                                                          \
+#define VIN_CAT_(a, b) a##__L##b
+#define VIN_CAT(a, b) VIN_CAT_(a, b)
+#define VIN_ARR(type, name, n) VIN_ARR_(type, name, n, VIN_CAT(name, __LINE__))
+#define VIN_ARR_(type, name, n, uniq) VIN_ARR__(type, name, n, uniq)
+#define VIN_ARR__(type, name, n, uniq)                                                                                 \
+	struct uniq##_s {                                                                                              \
 		type v[n];                                                                                             \
 	};                                                                                                             \
-	struct name##_vin_s nondet_in_##name(void);                                                                    \
-	struct name##_vin_s name##_vin = nondet_in_##name();                                                           \
+	struct uniq##_s nondet_in_##uniq(void);                                                                        \
+	struct uniq##_s name##_vin = nondet_in_##uniq();                                                               \
 	type *name = name##_vin.v
 #define VASSUME(c) __CPROVER_assume(c)
 #define VASSERT(c, msg) __CPROVER_assert((c), msg)
